@@ -40,6 +40,10 @@ def do_case(ctx, inp):
     ids = [v[0] for v in avars]
     dpv = [int(v) for v in np.asarray(poly.default_prio_vector).tolist()]
     dpd = dict(map(tuple, dp))
+    missing = [i for i in ids if i not in dpd]
+    if missing:
+        # every column of the polyhedron has a default priority (-1: prefer not selecting it; -2: non-default branch)
+        ctx.fail("default-priorities-miss-a-column", {"columns_without_default_priority": missing, "default_prios": dp}); return
     if dpv != [dpd[i] for i in ids]:
         ctx.fail("default-prio-vector-misaligned", {"dpv": dpv, "ids": ids, "default_prios": dp}); return
     if len(objs) != len(prios):
